@@ -3,6 +3,7 @@ package checks
 import (
 	"context"
 	"fmt"
+	"sort"
 	"strings"
 	"sync"
 	"sync/atomic"
@@ -201,4 +202,24 @@ func aliveExcept(s *sim.Sim, kinds ...string) []*sim.Task {
 		}
 	}
 	return out
+}
+
+// sortedKeys returns the keys of a string-keyed map in sorted order: the
+// harness never lets Go's map iteration order decide anything.
+func sortedKeys[V any](m map[string]V) []string {
+	ks := make([]string, 0, len(m))
+	for k := range m {
+		ks = append(ks, k)
+	}
+	sort.Strings(ks)
+	return ks
+}
+
+func sortedIntKeys[V any](m map[int]V) []int {
+	ks := make([]int, 0, len(m))
+	for k := range m {
+		ks = append(ks, k)
+	}
+	sort.Ints(ks)
+	return ks
 }
